@@ -1,6 +1,7 @@
 package main
 
 import (
+	"strconv"
 	"fmt"
 	"go/types"
 	"os"
@@ -30,6 +31,8 @@ type Program struct {
 	fakeTypes map[string]types.Type // replay: synthetic dynamic types of scripted fakes
 	fakeIface map[int]types.Type    // fake type id -> the interface it fakes
 	houdiniDropped map[string]bool  // refuted invariant candidates (houdini.go)
+	goAlias   map[string]string     // spawned named function -> the literal name its contract was written for
+	loadNotes []string
 }
 
 // rootOK returns an SMT predicate body over x (the root type id of an
@@ -133,7 +136,78 @@ func loadProgram(repo string, specFiles []string, externFiles []string) (*Progra
 		return nil, err
 	}
 	p.roleUnseen = p.addRoleImplSpecs()
+	p.retargetLiteralSpecs()
 	return p, nil
+}
+
+// retargetLiteralSpecs: a contract on a function literal is keyed by go/ssa's name for it (F$N). When the
+// literal is gone but F is still there, a refactoring turned it into something else:
+//   - F now spawns (go) a named in-package function G that has no contract of its own: the contract moves
+//     to G (its clauses name captured variables, which are G's receiver/parameters now); `ngo("F$N")` in
+//     F's own contract keeps counting the spawns of G (goAlias);
+//   - otherwise the literal was replaced by a direct use of a function under contract (go srv.handleChannel
+//     instead of go func(){ srv.handleChannel(..) }()): that function's own contract is what is checked at
+//     the go statement, and the literal's contract has nothing left to talk about; it is dropped with a note.
+// A literal whose parent is gone as well stays a dangling target (reported as <F$N>#contract).
+func (p *Program) retargetLiteralSpecs() {
+	var names []string
+	for n := range p.spec.Funcs {
+		names = append(names, n)
+	}
+	sort.Strings(names)
+	for _, n := range names {
+		i := strings.LastIndex(n, "$")
+		if i < 0 || p.funcs[n] != nil {
+			continue
+		}
+		parent := p.funcs[n[:i]]
+		k, err := strconv.Atoi(n[i+1:])
+		if parent == nil || err != nil || k < 1 {
+			continue
+		}
+		fs := p.spec.Funcs[n]
+		var cands []*ssa.Function
+		seen := map[*ssa.Function]bool{}
+		for _, b := range parent.Blocks {
+			for _, in := range b.Instrs {
+				g, ok := in.(*ssa.Go)
+				if !ok {
+					continue
+				}
+				f, ok := g.Common().Value.(*ssa.Function)
+				if !ok || f.Parent() != nil || f.Pkg != p.spkg || seen[f] {
+					continue
+				}
+				if p.spec.Funcs[p.relName(f)] == nil {
+					seen[f] = true
+					cands = append(cands, f)
+				}
+			}
+		}
+		delete(p.spec.Funcs, n)
+		if k-1 < len(cands) {
+			g := p.relName(cands[k-1])
+			p.spec.Funcs[g] = fs
+			if p.goAlias == nil {
+				p.goAlias = map[string]string{}
+			}
+			p.goAlias[g] = n
+			for j, o := range p.spec.Order {
+				if o == n {
+					p.spec.Order[j] = g
+				}
+			}
+			p.loadNotes = append(p.loadNotes, fmt.Sprintf("contract of the function literal %s moved to %s (the literal became a named function spawned by %s)", n, g, n[:i]))
+			continue
+		}
+		for j, o := range p.spec.Order {
+			if o == n {
+				p.spec.Order = append(p.spec.Order[:j:j], p.spec.Order[j+1:]...)
+				break
+			}
+		}
+		p.loadNotes = append(p.loadNotes, fmt.Sprintf("contract of the function literal %s dropped: %s no longer contains that literal", n, n[:i]))
+	}
 }
 
 func (p *Program) typeID(t types.Type) int {
